@@ -30,6 +30,7 @@ struct FnDir {
     selector: String,
     from: Option<String>,
     to: Option<String>,
+    block: Option<String>,
     name: Option<String>,
     ret: Option<String>,
     generics: Option<String>,
@@ -197,6 +198,7 @@ fn parse_template(path: &Path, nodes: &mut Vec<Node>) {
                         "inline_then" => d.inline_then.push(rest.parse().unwrap_or_else(|_| die(&format!("{sctx}: @@inline_then needs closure ordinal")))),
                         "from" => d.from = Some(rest),
                         "to" => d.to = Some(rest),
+                        "block" => d.block = Some(rest),
                         "subst" => d.substs.push(parse_subst(&rest, &sctx)),
                         "macro" => d.macros.push(parse_subst(&rest, &sctx)),
                         "spec" => d.spec = multiline(&mut i),
@@ -1174,9 +1176,12 @@ fn main() {
                 } else if d.is_slice {
                     let from = d.from.as_deref().unwrap_or_else(|| die(&format!("{ctx}: @@slice needs @@from")));
                     let to = d.to.as_deref().unwrap_or(from);
-                    let mut bf = BlockFinder { src: &src.text, from, found: None };
+                    // `@@block anchor`: the block is the innermost one holding a statement that matches
+                    // `anchor`; @@from / @@to are then matched among that block's statements only
+                    let block_anchor = d.block.as_deref().unwrap_or(from);
+                    let mut bf = BlockFinder { src: &src.text, from: block_anchor, found: None };
                     bf.visit_block(f.block);
-                    let blk = bf.found.unwrap_or_else(|| die(&format!("{ctx}: @@from anchor not found: {from}")));
+                    let blk = bf.found.unwrap_or_else(|| die(&format!("{ctx}: @@from / @@block anchor not found: {block_anchor}")));
                     let mut a = None;
                     let mut b = None;
                     for (k, s) in blk.stmts.iter().enumerate() {
@@ -1201,11 +1206,12 @@ fn main() {
                             }
                         }
                     }
-                    let a = a.unwrap();
-                    if a >= blk.stmts.len() {
+                    if a.map_or(false, |a| a >= blk.stmts.len()) {
                         die(&format!("{ctx}: no statement follows the @@from anchor: {from}"));
                     }
-                    let b = if d.to.is_none() { a } else { b.unwrap_or_else(|| die(&format!("{ctx}: @@to anchor not found after @@from: {to}"))) };
+                    let a = a.unwrap_or_else(|| die(&format!("{ctx}: @@from anchor not found in the block: {from}")));
+                    // `@@to $` = the last statement of the block
+                    let b = if d.to.is_none() { a } else if to == "$" { blk.stmts.len() - 1 } else { b.unwrap_or_else(|| die(&format!("{ctx}: @@to anchor not found after @@from: {to}"))) };
                     for s in &blk.stmts[a..=b] {
                         ed.visit_stmt(s);
                     }
